@@ -750,6 +750,9 @@ class Program:
                 seen.add(key)
                 self.globals[g["name"]].append(g)
         self._callers = None
+        for lst in self.functions.values():
+            for f in lst:
+                f.prog = self           # lets per-function rules look one call deep (guards moved into a helper)
 
     def all_functions(self):
         for lst in self.functions.values():
